@@ -903,12 +903,52 @@ def rule_config_writes(ctx):
     r(ctx)
 
 
+def rule_none_sources(ctx):
+    """A pattern rejects a haystack exactly when one of its atoms does: in Pattern::score / Pattern::indices (and
+    MultiPattern::score over the column patterns) a None result is the None of an inner verdict -- the `?` (or its
+    written-out form) behind a call of the inner scorer, in the function itself or in a closure / helper folded into it.
+    A None returned on any other condition (an empty haystack, a length test) rejects inputs that a pattern of negated
+    atoms accepts with score 0."""
+    facts = ctx.facts
+    n = 0
+    for crate, name, inner in ((M, "pattern::Pattern::score", "pattern::Atom::score"), (M, "pattern::Pattern::indices", "pattern::Atom::indices"),
+                               ("nucleo", "pattern::MultiPattern::score", "nucleo_matcher::pattern::Pattern::score")):
+        fn = get_fn(facts, crate, name)
+        bodies = [fn] + [fn_of(b) for b in facts.bodies_of(crate) if b.get("kind") == "Closure" and str(b.get("root")) == name]
+        for f2 in bodies:
+            for bi, si, s_ in f2.stmts(lambda s_: s_["k"] == "assign" and s_["rv"].get("agg") == "adt" and str(s_["rv"].get("adt", "")).endswith("option::Option") and s_["rv"].get("variant") == "None"):
+                # only Nones that become the function's result
+                if not (s_["lhs"]["l"] == 0 and not s_["lhs"]["p"]) and f2 is fn:
+                    tgt = s_["lhs"]["l"]
+                    if not any(isinstance(rv.get("use"), dict) and (rv["use"].get("move") or rv["use"].get("copy") or {}).get("l") == tgt for _, _, k_, rv in fn.defs.get(0, []) if k_ == "assign" and isinstance(rv, dict)):
+                        continue
+                elif f2 is not fn and not (s_["lhs"]["l"] == 0 and not s_["lhs"]["p"]):
+                    continue
+                n += 1
+                gs = guards_of(f2, bi)
+                from_inner = False
+                for g in gs:
+                    for x in walk(g[3]):
+                        if x[0] == "call" and (str(x[1]) == inner or str(x[1]).endswith("Try>::branch") or str(x[1]).endswith("::is_none") or str(x[1]).endswith("::is_some")):
+                            if str(x[1]) == inner or any(y[0] == "call" and str(y[1]) == inner for y in walk(x)):
+                                from_inner = True
+                if from_inner:
+                    ctx.ok(site(f2, bi, si), "None result behind an inner None verdict")
+                else:
+                    conds = "; ".join(show(g[3])[:60] for g in gs[-2:]) or "unconditionally"
+                    ctx.violation("%s|none-source|1" % name, site(f2, bi, si), "%s answers None on a condition that is not an atom's verdict (%s): a haystack that every atom accepts -- an empty one under a pattern "
+                                  "of negated atoms -- is rejected, and score / indices / match_list disagree" % (name.split("::", 1)[1], conds))
+    if n == 0:
+        ctx.ok("pattern.rs", "no explicit None result in the pattern scorers: rejection only through `?` on the inner verdicts")
+
+
 def rules(ctx):
     ctx.run_rule("C15.config-writes", rule_config_writes)
     ctx.run_rule("C15.config-before-call", rule_config_before_call)
     ctx.run_rule("C15.dispatch-tables", rule_dispatch_tables)
     ctx.run_rule("C15.negation", rule_negation)
     ctx.run_rule("C15.sum-and-propagate", rule_sum_and_propagate)
+    ctx.run_rule("C15.none-sources", rule_none_sources)
     ctx.run_rule("C15.stable-sort", rule_stable_sort)
     ctx.run_rule("C15.match-list-filter", rule_match_list_filter)
     ctx.run_rule("C15.columns", rule_columns)
